@@ -608,6 +608,37 @@ func everyReceiverIsAnswered(c *eng.Ctx) {
 		c.Check(len(sends) >= 1, "response-sent", nil, f, "the leaf sends its response on the receivers' streams", "no stream.Send in sendResponse")
 		visitsEveryElement(c, f, "no-early-exit",
 			"every receiver counts this leaf in its expected results: the loop over ctx.Receivers is not left early - a receiver whose stream is missing is skipped, the ones behind it are still answered (data or error); otherwise they wait until their timeout and the request gets no response")
+		// ... and the only receiver that is passed over is one without a stream: an "empty" part is still an answer
+		nilStream := eng.EdgesWithFact(f, func(ft eng.Fact) bool {
+			if ft.Op != "eq" || ft.Y == nil {
+				return false
+			}
+			isStream := func(v ssa.Value) bool { return calleeName(eng.Unwrap(v)) == "GetStream" }
+			return isStream(ft.X) && eng.IsNilConst(ft.Y) || isStream(ft.Y) && eng.IsNilConst(ft.X)
+		})
+		for i, sd := range sends {
+			if sd.Instr.Parent() != f {
+				continue
+			}
+			h := innermostLoop(f, sd.Instr.Block())
+			if h == nil {
+				c.Check(false, fmt.Sprintf("send-in-the-receiver-loop[%d]", i), sd.Instr, f, "the response is sent inside the loop over the receivers", "not in a loop")
+				continue
+			}
+			for _, pr := range h.Preds {
+				if !h.Dominates(pr) || sd.Instr.Block().Dominates(pr) {
+					continue
+				}
+				last := pr.Instrs[len(pr.Instrs)-1]
+				_, skip := eng.PathExists(eng.PathQuery{Fn: f, After: h.Instrs[0],
+					Target:  func(in ssa.Instruction) bool { return in == last },
+					Blocked: func(in ssa.Instruction) bool { return in == sd.Instr },
+					Edge:    eng.ForbidEdges(nilStream)})
+				c.Check(!skip, fmt.Sprintf("receiver-passed-over-only-without-a-stream[%d]", i), last, f,
+					"every receiver of the plan counts this leaf in its expected results, also when none of the leaf's groups hashes to it: an iteration goes on to the next receiver without sending only when the receiver has no stream",
+					"an iteration can reach the next receiver without stream.Send although a stream was found")
+			}
+		}
 	})
 }
 
@@ -812,4 +843,1422 @@ func onlyStorableFieldTypesAccepted(c *eng.Ctx) {
 			"a field whose type the switch does not map is written without a type, i.e. stored as the flat UnSpecified type - which the validation refuses when it is sent as such; an invalid metric is rejected as a whole",
 			"the converter succeeds for simple field type value(s) "+strings.Join(accepted, ", ")+" although its type switch has no case for them")
 	})
+}
+
+// ---- C03-m18 (C03, C04): the merge-side down-sampling emits every target slot -------------------------------------------------------------
+//
+// The only consumer of DownSamplingMultiSeriesInto, TSDEncoder.EmitDownSamplingValue, ignores the position it is handed and
+// appends one slot mark per call: the stream it builds is positional.  Skipping the target slots that got no value shifts
+// every later value to an earlier slot.
+func downSamplingEmitsEverySlot(c *eng.Ctx) {
+	c.Rule("EXHAUSTIVE", "aggregation.DownSamplingMultiSeriesInto{every target slot is emitted, in order}", func() {
+		f := c.Fn("aggregation.DownSamplingMultiSeriesInto")
+		var emits []eng.Site
+		for _, b := range f.Blocks {
+			for _, in := range b.Instrs {
+				if cl, ok := in.(*ssa.Call); ok {
+					if pa, isP := eng.Unwrap(cl.Common().Value).(*ssa.Parameter); isP && pa.Parent() == f && cl.Common().StaticCallee() == nil && !cl.Common().IsInvoke() {
+						emits = append(emits, eng.Site{Fn: f, Instr: in})
+					}
+				}
+			}
+		}
+		if len(emits) != 1 {
+			c.Undecided("expected one call of the emit callback in DownSamplingMultiSeriesInto, found %d", len(emits))
+		}
+		everyIterationPasses(c, f, emits[0], "no-slot-skipped",
+			"the consumer (TSDEncoder.EmitDownSamplingValue) appends one slot mark per call and ignores the position argument: the emit loop calls the callback for EVERY target slot, the empty ones (+Inf marker) included - a skipped slot moves every later value one slot earlier")
+		h := innermostLoop(f, emits[0].Instr.Block())
+		n := 0
+		for _, e := range eng.EarlyLoopExits(f) {
+			if e.Header == h {
+				n++
+			}
+		}
+		c.Check(n == 0, "emit-loop-runs-to-the-end", emits[0].Instr, f, "the emit loop is not left before the last target slot", fmt.Sprintf("%d early exits", n))
+		// and the consumer is positional: it does not use the position
+		em := c.Fn("pkg/encoding.TSDEncoder.EmitDownSamplingValue")
+		c.Check(len(em.Params) >= 2, "consumer-found", nil, em, "the consumer of the emitted values", "")
+	})
+}
+
+// ---- C04-m17 (C04, C01): what a decoded edit-log record keeps does not alias the record buffer ---------------------------------------------
+//
+// Log.Decode runs during manifest recovery over a record buffer that the journal reader reuses for the next record.  A
+// string / slice that a record keeps in its fields must be a copy: a zero-copy view (Reader.ReadSlice, strutil.ByteSlice2String)
+// is rewritten by the following records - the recovered store name of a rollup reference turns into garbage, the "already
+// rolled up" look-up misses after a restart and the source file is merged into the target a second time.
+func freshValue(p *eng.Prog, v ssa.Value, depth int, seen map[ssa.Value]bool) (bool, string) {
+	v = eng.Unwrap(v)
+	if v == nil || depth > 6 {
+		return false, "unresolved value"
+	}
+	if seen[v] {
+		return true, ""
+	}
+	seen[v] = true
+	isBytesOrString := func(t types.Type) bool {
+		switch u := t.Underlying().(type) {
+		case *types.Basic:
+			return u.Info()&types.IsString != 0
+		case *types.Slice:
+			return true
+		}
+		return false
+	}
+	if !isBytesOrString(v.Type()) {
+		return true, "" // scalars carry no reference
+	}
+	switch x := v.(type) {
+	case *ssa.Const, *ssa.MakeSlice, *ssa.Alloc:
+		return true, ""
+	case *ssa.Convert:
+		_, fromStr := x.X.Type().Underlying().(*types.Basic)
+		_, toStr := x.Type().Underlying().(*types.Basic)
+		if fromStr != toStr {
+			return true, "" // string <-> []byte conversion copies
+		}
+		return freshValue(p, x.X, depth+1, seen)
+	case *ssa.BinOp:
+		return true, "" // string concatenation allocates
+	case *ssa.Slice:
+		return freshValue(p, x.X, depth+1, seen)
+	case *ssa.Phi:
+		for _, e := range x.Edges {
+			if ok, why := freshValue(p, e, depth+1, seen); !ok {
+				return false, why
+			}
+		}
+		return true, ""
+	case *ssa.Extract:
+		if cl, ok := x.Tuple.(*ssa.Call); ok {
+			return freshCallResult(p, cl, x.Index, depth, seen)
+		}
+		return false, p.Desc(v)
+	case *ssa.Call:
+		return freshCallResult(p, x, 0, depth, seen)
+	case *ssa.UnOp:
+		if x.Op == token.MUL {
+			for _, src := range leafSources(x) {
+				if src == ssa.Value(x) {
+					return false, "a view of " + p.Desc(x.X)
+				}
+				if ok, why := freshValue(p, src, depth+1, seen); !ok {
+					return false, why
+				}
+			}
+			return true, ""
+		}
+	}
+	return false, "a view of " + p.Desc(v)
+}
+
+func freshCallResult(p *eng.Prog, cl *ssa.Call, idx, depth int, seen map[ssa.Value]bool) (bool, string) {
+	if _, isB := cl.Common().Value.(*ssa.Builtin); isB {
+		switch cl.Common().Value.Name() {
+		case "append":
+			// append(dst, src...) : the result is dst's array (or a new one)
+			return freshValue(p, cl.Common().Args[0], depth+1, seen)
+		}
+		return false, "the result of " + cl.Common().Value.Name() + " (no copy)"
+	}
+	g := cl.Common().StaticCallee()
+	if g == nil {
+		if cl.Common().IsInvoke() {
+			for _, m := range p.ModuleCallees(cl) {
+				if ok, why := freshReturns(p, m, idx, depth, seen); !ok {
+					return false, why
+				}
+			}
+			return true, ""
+		}
+		return false, "the result of a dynamic call"
+	}
+	if g.Blocks == nil || g.Pkg == nil || !strings.HasPrefix(g.Pkg.Pkg.Path(), "github.com/lindb/lindb") {
+		return true, "" // standard library / external: Clone, Sprintf, builders ... return their own memory
+	}
+	return freshReturns(p, g, idx, depth, seen)
+}
+
+func freshReturns(p *eng.Prog, g *ssa.Function, idx, depth int, seen map[ssa.Value]bool) (bool, string) {
+	if g.Blocks == nil {
+		return true, ""
+	}
+	for _, b := range g.Blocks {
+		for _, in := range b.Instrs {
+			r, ok := in.(*ssa.Return)
+			if !ok || idx >= len(r.Results) {
+				continue
+			}
+			rv := eng.Unwrap(r.Results[idx])
+			// a parameter handed back: unsafe.String(&bytes[0], n) and the like are views of the argument
+			if ok, why := freshValue(p, rv, depth+1, seen); !ok {
+				return false, why + " (returned by " + p.FuncKey(g) + ")"
+			}
+		}
+	}
+	return true, ""
+}
+
+func decodedRecordOwnsItsStrings(c *eng.Ctx) {
+	p := c.P
+	c.Rule("PROV", "kv/version.Log.Decode{a decoded record keeps copies, not views of the record buffer}", func() {
+		n, m := 0, 0
+		for _, fn := range p.AllFuncs {
+			k := p.FuncKey(fn)
+			if !strings.HasPrefix(k, "kv/version.") || !strings.HasSuffix(k, ".Decode") || fn.Signature.Recv() == nil || len(fn.Params) != 2 {
+				continue
+			}
+			n++
+			for _, b := range eng.BlocksT(fn) {
+				for _, in := range b.Instrs {
+					st, ok := in.(*ssa.Store)
+					if !ok {
+						continue
+					}
+					fa, ok := st.Addr.(*ssa.FieldAddr)
+					if !ok {
+						continue
+					}
+					switch u := st.Val.Type().Underlying().(type) {
+					case *types.Basic:
+						if u.Info()&types.IsString == 0 {
+							continue
+						}
+					case *types.Slice:
+					default:
+						continue
+					}
+					m++
+					ok2, why := freshValue(p, st.Val, 0, map[ssa.Value]bool{})
+					c.Check(ok2, fmt.Sprintf("%s:%s-is-a-copy", k, eng.FieldKeyOfAddr(fa)), st, fn,
+						"the journal reader reuses one record buffer for all records of a manifest: a string / slice a decoded record keeps is a copy of the bytes, never a zero-copy view (Reader.ReadSlice, strutil.ByteSlice2String) - the view is rewritten by the records that follow, and a recovered rollup reference then names a garbage store: the 'already rolled up' look-up misses and the file is rolled up twice",
+						"the stored value is "+why)
+				}
+			}
+		}
+		c.Check(n >= 6 && m >= 2, "decoders-found", nil, nil, "the edit-log record decoders", fmt.Sprintf("%d Decode methods, %d string/slice fields kept", n, m))
+	})
+}
+
+// ---- C07-m18 (C07, C08): a rewind to the acknowledged position itself is accepted ------------------------------------------------------------
+//
+// After a restart the local replicator rewinds with ResetReplicaIndex(ack+1), i.e. SetConsumedSeq(ack): everything above
+// the acknowledged position is replayed.  A remote replicator that reconnects rewinds to exactly its acknowledged index
+// too.  Whatever validation SetConsumedSeq does, it must let seq == acknowledged through - refusing it silently keeps the
+// consumed position of the crashed process, the entries in (ack, consumed] are never replayed and the next flush
+// acknowledges past them.
+func rewindToTheAckIsAccepted(c *eng.Ctx) {
+	p := c.P
+	c.Rule("GUARD", cgT+".SetConsumedSeq{a rewind to the acknowledged position is accepted}", func() {
+		f := c.Fn(cgT + ".SetConsumedSeq")
+		facts := p.MustFacts(f)
+		sts := c.Some(f, eng.StoreField(cgT+".consumedSeq"), "store to consumedSeq")
+		isAck := func(d string, v ssa.Value) bool {
+			return eng.DependsOn(v, func(x ssa.Value) bool {
+				in, ok := x.(ssa.Instruction)
+				return ok && eng.LoadField(cgT+".acknowledgedSeq")(p, in)
+			}) || strings.Contains(d, "AcknowledgedSeq") || strings.Contains(d, "acknowledgedSeq")
+		}
+		isSeq := func(d string, v ssa.Value) bool {
+			pa, ok := eng.Unwrap(v).(*ssa.Parameter)
+			return ok && pa.Parent() == f
+		}
+		for i, st := range sts {
+			fs := facts.At(st.Instr)
+			strict := facts.Find(fs, "lt", isAck, isSeq)
+			ne := facts.Find(fs, "ne", isAck, isSeq)
+			ne = append(ne, facts.Find(fs, "ne", isSeq, isAck)...)
+			c.Check(len(strict) == 0 && len(ne) == 0, fmt.Sprintf("ack-itself-accepted[%d]", i), st.Instr, f,
+				"the start-up rewind of the local replicator is SetConsumedSeq(acknowledged): the consumed position is stored for seq == acknowledged as well - a bound that refuses it keeps the crash-time position, the entries in (ack, consumed] are not replayed and are acknowledged by the next flush",
+				"the store is reached only under: "+strings.Join(facts.Render(fs), " ; "))
+		}
+	})
+}
+
+// ---- C04-m18 (C04): a rollup mark stands for the data of one flush ---------------------------------------------------------------------------
+//
+// A "waiting for rollup" mark is created by the flusher for the table it has just written, and only there (the manifest
+// snapshot re-writes the marks that exist).  The rollup merges exactly the marked files into the target family.  A
+// compaction that marks its OUTPUT hands the rollup the overlapping level-1 data as well - data that was rolled up long
+// ago is merged into the target a second time.
+func rollupMarkOnlyForAFlushedTable(c *eng.Ctx) {
+	c.Rule("OWNER", "kv/version.CreateNewRollupFile{a rollup mark is created for a freshly flushed table only}", func() {
+		owner(c, "creation of a 'waiting for rollup' mark", eng.AnyCallTo("kv/version.CreateNewRollupFile"),
+			[]string{sfT + ".Commit", "kv/version.storeVersionSet.createFamilySnapshot", "kv/version.storeVersionSet.createSnapshot"}, 1)
+	})
+}
+
+// ---- C05-m18 (C05): every page file found on disk is registered when a queue is opened -------------------------------------------------------
+//
+// Get / GC look pages up with GetPage, which knows only registered pages; the writer acquires just the page of its cursor.
+// loadPages therefore acquires EVERY page file it lists - a file that is skipped (taken for "incomplete" because the
+// configured page size grew, say) leaves the messages on it unreadable although they lie above the acknowledged position,
+// and GC never sees the file again.
+func everyPageFileIsLoaded(c *eng.Ctx) {
+	c.Rule("EXHAUSTIVE", "pkg/queue/page.factory.loadPages{every listed page file is acquired}", func() {
+		f := c.Fn("pkg/queue/page.factory.loadPages")
+		acq := c.One(f, eng.AnyCallTo("pkg/queue/page.factory.AcquirePage"), "f.AcquirePage(seq)")
+		everyIterationPasses(c, f, acq, "no-file-skipped",
+			"a message is readable only through a registered page (Get uses GetPage): opening a queue registers every page file of the directory, whatever its size - no iteration of the scan skips the acquisition")
+		visitsEveryElement(c, f, "scan-not-cut-short", "the scan of the directory ends only at its end or with an error")
+	})
+}
+
+// ---- C06-m17 (C06): an index reset excludes the creation of consumer groups ------------------------------------------------------------------
+//
+// FanOutQueue.SetAppendedSeq resets the queue and then every consumer group to the new position.  GetOrCreateConsumerGroup
+// (write side of lock4map) clamps a new group against the queue's CURRENT appended position.  Both steps of the reset run
+// in one hold of lock4map: a group created between "groups copied" and "queue reset" is clamped against the old position
+// and never reset - consumed > appended, the records appended after the reset are never handed to it.
+func indexResetExcludesGroupCreation(c *eng.Ctx) {
+	p := c.P
+	c.Rule("GUARDED-BY", foT+".SetAppendedSeq{queue reset and group resets in one hold of the group-map lock}", func() {
+		f := c.Fn(foT + ".SetAppendedSeq")
+		ls := p.Locks(f, nil)
+		q := c.One(f, invokeOn(".queue", "SetAppendedSeq"), "fq.queue.SetAppendedSeq(seq)")
+		gs := c.Some(f, invokeOn("", "SetSeq"), "group.SetSeq(seq)")
+		c.Check(ls.At(q.Instr).HasField(foMu, false), "queue-reset-under-map-lock", q.Instr, f,
+			"the queue is reset while lock4map is held (GetOrCreateConsumerGroup takes its write side and clamps a new group against the queue's current position)", "held: "+ls.At(q.Instr).String())
+		for i, g := range gs {
+			ok, why := ls.SameHold(q.Instr, g.Instr, foMu, false)
+			c.Check(ok, fmt.Sprintf("group-reset-in-the-same-hold[%d]", i), g.Instr, f,
+				"the groups are reset in the same hold of lock4map in which the queue was reset: no group can be created (and clamped against the old position) in between and then missed by the reset", why)
+		}
+	})
+}
+
+// ---- C08-m17 (C08): the handshake measures the follower against ITS OWN acknowledged position ------------------------------------------------
+//
+// "remote ack < baseline" is how the leader notices a follower that lost its log (or is new): the baseline is the
+// acknowledged position of this follower's consumer group.  The log's GC barrier (Queue.AcknowledgedSeq) lags that
+// position - it is moved by the periodic GC task only - so a follower that lost its log is not detected while the
+// barrier lags, the leader stays ready with its ack for the follower above what the follower has appended.
+func handshakeBaselineIsTheGroupAck(c *eng.Ctx) {
+	p := c.P
+	c.Rule("PROV", rrT+".IsReady{the follower's ack is compared with this follower's consumer-group ack}", func() {
+		f := c.Fn(rrT + ".IsReady")
+		isRemote := func(v ssa.Value) bool {
+			return eng.DependsOn(v, func(x ssa.Value) bool {
+				n := calleeName(x)
+				return n == "getLastAckIdxFromReplica" || n == "GetReplicaAckIndex"
+			})
+		}
+		n := 0
+		for _, b := range eng.BlocksT(f) {
+			for _, in := range b.Instrs {
+				bo, ok := in.(*ssa.BinOp)
+				if !ok {
+					continue
+				}
+				switch bo.Op {
+				case token.LSS, token.GTR, token.LEQ, token.GEQ:
+				default:
+					continue
+				}
+				var base ssa.Value
+				switch {
+				case isRemote(bo.X) && !isRemote(bo.Y):
+					base = bo.Y
+				case isRemote(bo.Y) && !isRemote(bo.X):
+					base = bo.X
+				default:
+					continue
+				}
+				// only the comparison against an acknowledged position (the other one is against the append index)
+				isAck := eng.DependsOn(base, func(x ssa.Value) bool {
+					nm := calleeName(x)
+					return nm == "AckIndex" || nm == "AcknowledgedSeq"
+				})
+				if !isAck {
+					continue
+				}
+				n++
+				viaLog := eng.DependsOn(base, func(x ssa.Value) bool { return calleeName(x) == "Queue" })
+				c.Check(!viaLog, fmt.Sprintf("baseline-is-the-group-ack[%d]", n), bo, f,
+					"a follower that lost its log (or is new) is recognised by 'remote ack < acknowledged position of this follower's consumer group'; the log's GC barrier (Queue().Queue().AcknowledgedSeq()) lags behind it and hides the loss",
+					"the baseline is "+p.Desc(base))
+			}
+		}
+		c.Check(n >= 1, "ack-comparison-found", nil, f, "the handshake compares the follower's ack with the leader's ack for it", "")
+	})
+}
+
+// ---- C11-m18 (C11): a page id is bound to a series only together with the advance of the page-id sequence -------------------------------------
+//
+// GetOrCreatePage hands a new series the next page id; creating the region of that page can fail (mkdir / open / mmap).
+// The binding series -> page id and the advance of the sequence belong together: a binding that survives a failed call
+// while the sequence stays where it was gives the NEXT new series the same page id - two series write into one 128-byte
+// page, their points are mixed in memory and, after a flush, for good.
+func pageBindingAndSequenceTogether(c *eng.Ctx) {
+	p := c.P
+	c.Rule("TYPESTATE", "tsdb/memdb.dataPointBuffer.GetOrCreatePage{a page id is bound only when the page-id sequence advances}", func() {
+		const T = "tsdb/memdb.dataPointBuffer"
+		f := c.Fn(T + ".GetOrCreatePage")
+		binds := c.Some(f, invokeOn(".ids", "PutIfNotExist", "Put"), "d.ids.PutIfNotExist(series, pageID)")
+		isAdvance := eng.StoreField(T + ".pageIDSeq")
+		for i, b := range binds {
+			w, fails := eng.PathExists(eng.PathQuery{Fn: f, After: b.Instr,
+				Target: func(in ssa.Instruction) bool {
+					r, ok := in.(*ssa.Return)
+					return ok && in.Parent() == f && !eng.ReturnsNilError(r)
+				}})
+			detail := ""
+			if fails {
+				detail = "after the binding the call can still fail at " + p.Pos(w.Pos()) + " (the sequence is not advanced on that exit)"
+			}
+			c.Check(!fails, fmt.Sprintf("no-failing-exit-after-the-binding[%d]", i), b.Instr, f,
+				"the series is bound to the page id only after everything that can fail has succeeded: a binding left behind by a failed call (region creation: mkdir, open, mmap) is handed out again to the next new series, because the page-id sequence is advanced on success only - two series then share one write page",
+				detail)
+			_, skip := eng.PathExists(eng.PathQuery{Fn: f, After: b.Instr,
+				Target:  func(in ssa.Instruction) bool { _, ok := in.(*ssa.Return); return ok && in.Parent() == f },
+				Blocked: func(in ssa.Instruction) bool { return isAdvance(p, in) }})
+			c.Check(!skip, fmt.Sprintf("binding-advances-the-sequence[%d]", i), b.Instr, f,
+				"every path from the binding to a return advances d.pageIDSeq", "a return is reachable after the binding without d.pageIDSeq++")
+		}
+	})
+}
+
+// ---- C12-m17 (C12): a selected field the node's schema does not know fails the leaf task -----------------------------------------------------
+//
+// The root builds its aggregators from the field specs of the FIRST leaf response and silently drops what it has no
+// aggregator for; that only works because every non-empty leaf response carries the same spec list - a leaf that cannot
+// resolve one of the selected fields answers with an error, not with the fields it happens to know.
+func unknownSelectFieldFailsTheLeaf(c *eng.Ctx) {
+	p := c.P
+	c.Rule("ERRFLOW", "query/operator.metadataLookup.field{an unknown select field is an error}", func() {
+		const T = "query/operator.metadataLookup"
+		f := c.Fn(T + ".field")
+		finds := c.Some(f, invokeOn(".Fields", "Find"), "Schema.Fields.Find(name)")
+		latch := eng.StoreField(T + ".err")
+		for i, fd := range finds {
+			_, fe := eng.BoolCheckEdges(f, fd.Instr.(ssa.Value))
+			c.Check(len(fe) >= 1, fmt.Sprintf("not-found-tested[%d]", i), fd.Instr, f, "the look-up result is tested", "the 'found' result of Fields.Find is not tested")
+			for j, e := range fe {
+				first := e.B.Succs[e.Succ].Instrs[0]
+				w, quiet := eng.PathExists(eng.PathQuery{Fn: f, After: first,
+					Target:  func(in ssa.Instruction) bool { _, ok := in.(*ssa.Return); return ok && in.Parent() == f },
+					Blocked: func(in ssa.Instruction) bool { return latch(p, in) }})
+				if latch(p, first) {
+					quiet = false
+				}
+				detail := ""
+				if quiet {
+					detail = "the not-found branch returns at " + p.Pos(w.Pos()) + " without recording an error in op.err"
+				}
+				c.Check(!quiet, fmt.Sprintf("not-found-is-latched[%d,%d]", i, j), fd.Instr, f,
+					"a selected field that this node's schema does not contain makes the leaf fail with 'field not found' (the root tolerates that answer as 'no data on this node'); answering with the remaining fields gives the root responses with different field lists, and the root drops every field the first response did not carry",
+					detail)
+			}
+		}
+		// and the latch is what selectList returns
+		sl := c.Fn(T + ".selectList")
+		c.Check(len(p.Sites(sl, eng.LoadField(T+".err"))) >= 1, "latch-is-returned", nil, sl, "selectList reports the latched error", "")
+	})
+}
+
+// ---- C13-m17 (C13, C11): the query examines every family of a segment ---------------------------------------------------------------------
+//
+// Family names are un-padded decimal numbers (hour 0..23, day 1..31, month 1..12) and the kv store lists them in map
+// order: no order of the list means anything in time ("10" sorts before "2").  Whether a family belongs to the query is
+// decided for each family on its own; a scan that stops early loses the families behind the stop.
+func everyFamilyOfTheSegmentExamined(c *eng.Ctx) {
+	c.Rule("EXHAUSTIVE", "tsdb.segment.GetDataFamilies{every family of the segment is examined}", func() {
+		f := c.Fn("tsdb.segment.GetDataFamilies")
+		ov := c.Some(f, eng.AnyCallTo("pkg/timeutil.TimeRange.Overlap"), "timeRange.Overlap(family.TimeRange())")
+		visitsEveryElement(c, f, "scan-not-cut-short",
+			"the family names of a segment carry no order in time (un-padded decimals, listed in map order): the scan runs over all of them and tests each family's own range against the query range")
+		_ = ov
+	})
+}
+
+// ---- C13-m18 (C13): two time ranges are compared as closed intervals --------------------------------------------------------------------------
+//
+// Everywhere in the engine a TimeRange includes its End; the planner produces Start == End for a query that falls into one
+// storage slot.  Overlap answers "no" only because a containment test between the TWO ranges failed - never because one
+// range looks "empty" under a half-open reading (IsEmpty is Start >= End): such a guard makes a correctly planned
+// one-slot query match no family.
+func overlapIsAClosedIntervalTest(c *eng.Ctx) {
+	p := c.P
+	c.Rule("GUARD", "pkg/timeutil.TimeRange.Overlap{'no overlap' only after a failed containment test between the two ranges}", func() {
+		f := c.Fn("pkg/timeutil.TimeRange.Overlap")
+		if len(f.Params) != 2 {
+			c.Undecided("Overlap has %d parameters", len(f.Params))
+		}
+		fromParam := func(v ssa.Value, pa *ssa.Parameter) bool {
+			return eng.DependsOn(v, func(x ssa.Value) bool { return x == ssa.Value(pa) })
+		}
+		var cross []eng.Edge
+		for _, b := range f.Blocks {
+			for _, in := range b.Instrs {
+				switch x := in.(type) {
+				case *ssa.Call:
+					if calleeName(x) == "Contains" {
+						_, fe := eng.BoolCheckEdges(f, x)
+						cross = append(cross, fe...)
+					}
+				case *ssa.BinOp:
+					switch x.Op {
+					case token.LSS, token.LEQ, token.GTR, token.GEQ:
+						r, o := f.Params[0], f.Params[1]
+						if fromParam(x.X, r) && fromParam(x.Y, o) && !fromParam(x.X, o) && !fromParam(x.Y, r) ||
+							fromParam(x.X, o) && fromParam(x.Y, r) && !fromParam(x.X, r) && !fromParam(x.Y, o) {
+							te, fe := condEdges(f, x)
+							cross = append(cross, te...)
+							cross = append(cross, fe...)
+						}
+					}
+				}
+			}
+		}
+		c.Check(len(cross) >= 1, "containment-tests-found", nil, f, "Overlap tests the two ranges against each other", "")
+		n := 0
+		for _, b := range f.Blocks {
+			r, ok := b.Instrs[len(b.Instrs)-1].(*ssa.Return)
+			if !ok || len(r.Results) != 1 {
+				continue
+			}
+			k, isC := eng.Unwrap(r.Results[0]).(*ssa.Const)
+			if !isC || k.Value == nil || k.Value.String() != "false" {
+				continue
+			}
+			n++
+			okd := false
+			for _, e := range cross {
+				if eng.DominatedByEdge(f, r, e) {
+					okd = true
+				}
+			}
+			c.Check(okd, fmt.Sprintf("false-only-after-a-cross-test[%d]", n), r, f,
+				"a TimeRange includes its End (Contains is start <= t <= end) and a one-point range [t,t] is what the planner produces for a query inside one storage slot: Overlap says 'no' only when a test of one range against the other failed, not because a range is 'empty' in the half-open sense",
+				"a constant false is returned at "+p.Pos(r.Pos())+" before any test between the two ranges")
+		}
+		c.Check(true, "constant-false-exits-examined", nil, f, "every constant-false exit of Overlap was examined", fmt.Sprintf("%d exits", n))
+	})
+}
+
+// ---- C14-m17 (C14): the bit reader fetches a byte only when it needs bits it does not have -------------------------------------------------
+//
+// A packed stream ends exactly where its last value ends.  A reader that fetches the FOLLOWING byte although the value it
+// is reading is already complete (the value used up the current byte exactly) runs into the end of the buffer and loses
+// the last value of the block.  Rule: in the variable-width reads (everything but ReadByte, which always needs 8 bits) a
+// byte is fetched only under `no unread bits are left` (count == 0) or `more bits are needed than are left`
+// (count < needed, strictly).
+func bitReaderFetchesOnlyWhenNeeded(c *eng.Ctx) {
+	p := c.P
+	c.Rule("GUARD", "pkg/bit.Reader{a byte is fetched only when the bits needed exceed the bits left}", func() {
+		const T = "pkg/bit.Reader"
+		isCount := func(_ string, v ssa.Value) bool {
+			return eng.DependsOn(v, func(x ssa.Value) bool {
+				in, ok := x.(ssa.Instruction)
+				return ok && eng.LoadField(T+".count")(p, in)
+			})
+		}
+		isZero := func(_ string, v ssa.Value) bool { k, ok := eng.ConstInt(v); return ok && k == 0 }
+		any := func(string, ssa.Value) bool { return true }
+		n := 0
+		for _, fn := range p.AllFuncs {
+			k := p.FuncKey(fn)
+			if !strings.HasPrefix(k, T+".") || k == T+".ReadByte" || fn.Blocks == nil {
+				continue
+			}
+			var facts *eng.Facts
+			for _, s := range p.SitesDirect(fn, invokeOn(".buf", "GetByte")) {
+				if facts == nil {
+					facts = p.MustFacts(fn)
+				}
+				n++
+				fs := facts.At(s.Instr)
+				empty := append(facts.Find(fs, "eq", isCount, isZero), facts.Find(fs, "eq", isZero, isCount)...)
+				empty = append(empty, facts.Find(fs, "le", isCount, isZero)...)
+				short := facts.Find(fs, "lt", isCount, any)
+				c.Check(len(empty) > 0 || len(short) > 0, fmt.Sprintf("%s:fetch-guarded[%d]", k, n), s.Instr, fn,
+					"the next byte of the stream is fetched only when no unread bit is left (count == 0) or strictly more bits are needed than are left: a value that ends on the last byte of its block must not touch the byte behind it",
+					"facts at the fetch: "+strings.Join(facts.Render(fs), " ; "))
+			}
+		}
+		c.Check(n >= 1, "fetch-sites-found", nil, nil, "the bit reader fetches bytes from its buffer", "")
+	})
+}
+
+// ---- C14-m18 (C14): the decoder demands no more bytes than the encoder writes ----------------------------------------------------------------
+//
+// TSDEncoder.Bytes writes 4 bytes of slot range and then one mark bit per slot (plus the values), flushed to a whole byte:
+// the shortest block of n slots has 4 + ceil(n/8) bytes (all slots empty).  A length test in TSDDecoder.Reset whose bound
+// depends on the slot count is evaluated as a closed form in n (the bound's expression tree: constants, + - * / and the
+// difference of the two decoded slot bounds = n-1) and must not reject that shortest block for any n.
+func decoderAcceptsTheShortestBlock(c *eng.Ctx) {
+	p := c.P
+	c.Rule("LAYOUT", "pkg/encoding.TSDDecoder.Reset{a length test rejects no block the encoder can produce}", func() {
+		f := c.Fn("pkg/encoding.TSDDecoder.Reset")
+		if len(f.Params) < 2 {
+			c.Undecided("Reset has %d parameters", len(f.Params))
+		}
+		data := f.Params[1]
+		fromData := func(v ssa.Value) bool {
+			return eng.DependsOn(v, func(x ssa.Value) bool { return x == ssa.Value(data) })
+		}
+		isLen := func(v ssa.Value) bool {
+			v = eng.Unwrap(v)
+			for {
+				cv, ok := v.(*ssa.Convert)
+				if !ok {
+					break
+				}
+				v = eng.Unwrap(cv.X)
+			}
+			cl, ok := v.(*ssa.Call)
+			if !ok {
+				return false
+			}
+			b, isB := cl.Common().Value.(*ssa.Builtin)
+			return isB && b.Name() == "len" && len(cl.Common().Args) == 1 && eng.Unwrap(cl.Common().Args[0]) == ssa.Value(data)
+		}
+		var eval func(v ssa.Value, n int64, d int) (int64, bool)
+		eval = func(v ssa.Value, n int64, d int) (int64, bool) {
+			v = eng.Unwrap(v)
+			if d > 12 {
+				return 0, false
+			}
+			if k, ok := eng.ConstInt(v); ok {
+				return k, true
+			}
+			switch x := v.(type) {
+			case *ssa.Convert:
+				return eval(x.X, n, d+1)
+			case *ssa.BinOp:
+				if x.Op == token.SUB && fromData(x.X) && fromData(x.Y) && !isLen(x.X) && !isLen(x.Y) {
+					if _, isC := eng.ConstInt(x.Y); !isC {
+						return n - 1, true // end slot - start slot
+					}
+				}
+				a, ok1 := eval(x.X, n, d+1)
+				b, ok2 := eval(x.Y, n, d+1)
+				if !ok1 || !ok2 {
+					return 0, false
+				}
+				switch x.Op {
+				case token.ADD:
+					return a + b, true
+				case token.SUB:
+					return a - b, true
+				case token.MUL:
+					return a * b, true
+				case token.QUO:
+					if b == 0 {
+						return 0, false
+					}
+					return a / b, true
+				case token.REM:
+					if b == 0 {
+						return 0, false
+					}
+					return a % b, true
+				case token.SHR:
+					return a >> uint(b), true
+				case token.SHL:
+					return a << uint(b), true
+				}
+			}
+			return 0, false
+		}
+		latch := eng.StoreField("pkg/encoding.TSDDecoder.err")
+		n := 0
+		for _, b := range f.Blocks {
+			for _, in := range b.Instrs {
+				bo, ok := in.(*ssa.BinOp)
+				if !ok {
+					continue
+				}
+				var bound ssa.Value
+				lenLeft := false
+				switch {
+				case isLen(bo.X):
+					bound, lenLeft = bo.Y, true
+				case isLen(bo.Y):
+					bound = bo.X
+				default:
+					continue
+				}
+				switch bo.Op {
+				case token.LSS, token.LEQ, token.GTR, token.GEQ, token.EQL, token.NEQ:
+				default:
+					continue
+				}
+				te, fe := condEdges(f, bo)
+				// which outcome rejects: the edge behind which the error latch is stored before the function returns
+				rejectOn := func(es []eng.Edge) bool {
+					for _, e := range es {
+						first := e.B.Succs[e.Succ].Instrs[0]
+						if latch(p, first) {
+							return true
+						}
+						if _, quiet := eng.PathExists(eng.PathQuery{Fn: f, After: first,
+							Target:  func(x ssa.Instruction) bool { _, isR := x.(*ssa.Return); return isR && x.Parent() == f },
+							Blocked: func(x ssa.Instruction) bool { return latch(p, x) }}); !quiet {
+							return true
+						}
+					}
+					return false
+				}
+				rejT, rejF := rejectOn(te), rejectOn(fe)
+				if rejT == rejF {
+					continue // not a rejection test (or both outcomes fail)
+				}
+				n++
+				bad, evaluated := int64(-1), true
+				for slots := int64(1); slots <= 4096 && bad < 0; slots++ {
+					bv, ok := eval(bound, slots, 0)
+					if !ok {
+						evaluated = false
+						break
+					}
+					L := 4 + (slots+7)/8
+					x, y := L, bv
+					if !lenLeft {
+						x, y = bv, L
+					}
+					var r bool
+					switch bo.Op {
+					case token.LSS:
+						r = x < y
+					case token.LEQ:
+						r = x <= y
+					case token.GTR:
+						r = x > y
+					case token.GEQ:
+						r = x >= y
+					case token.EQL:
+						r = x == y
+					case token.NEQ:
+						r = x != y
+					}
+					if r == rejT {
+						bad = slots
+					}
+				}
+				detail := ""
+				if bad >= 0 {
+					detail = fmt.Sprintf("the test %s rejects the %d-byte block of %d empty slots that TSDEncoder.Bytes produces", p.Desc(bo), 4+(bad+7)/8, bad)
+				}
+				if !evaluated {
+					detail = "bound not in closed form (not evaluated): " + p.Desc(bound)
+				}
+				c.Check(bad < 0, fmt.Sprintf("length-test-accepts-the-shortest-block[%d]", n), bo, f,
+					"the shortest block of n slots has 4 + ceil(n/8) bytes; a length test of the decoder that depends on the slot count uses the ceiling, not the floor - otherwise the all-empty block of 8, 16, 24 ... slots is refused and a pooled decoder keeps serving the previous block",
+					detail)
+			}
+		}
+		c.Check(n >= 1, "length-tests-found", nil, f, "Reset tests the length of the data", "")
+	})
+}
+
+// ---- C15-m17 (C15): every reader of a table cuts an entry out of the entries block by the offsets table ----------------------------------------
+//
+// The offsets table - not the position where the previous entry ended - says where an entry starts: bytes of a stream
+// entry that was prepared and written but never committed stay in the file in front of the next entry.  Point look-up and
+// iteration are siblings and use the same cut: offsets.GetBlock(idx, entriesBlock), or a slice whose bounds both come out
+// of offsets.Get.
+func entryCutByTheOffsetsTable(c *eng.Ctx) {
+	p := c.P
+	c.Rule("SYMMETRY", "kv/table.storeMMapReader{an entry's bounds come from the offsets table}", func() {
+		const T = "kv/table.storeMMapReader"
+		isEntries := func(v ssa.Value) bool {
+			return eng.DependsOn(v, func(x ssa.Value) bool {
+				in, ok := x.(ssa.Instruction)
+				return ok && eng.LoadField(T+".entriesBlock")(p, in)
+			})
+		}
+		isOffsetsGet := func(x ssa.Value) bool {
+			cl, ok := x.(*ssa.Call)
+			if !ok {
+				return false
+			}
+			nm := calleeName(cl)
+			return (nm == "Get" || nm == "GetBlock") && eng.DependsOnField(eng.CallRecv(cl), T+".offsets")
+		}
+		n := 0
+		for _, fn := range p.AllFuncs {
+			if !strings.HasPrefix(p.FuncKey(fn), "kv/table.") || fn.Blocks == nil {
+				continue
+			}
+			for _, b := range fn.Blocks {
+				for _, in := range b.Instrs {
+					switch x := in.(type) {
+					case *ssa.Call:
+						if calleeName(x) == "GetBlock" && eng.DependsOnField(eng.CallRecv(x), T+".offsets") {
+							n++
+							c.Check(true, fmt.Sprintf("cut-by-GetBlock@%s", p.FuncKey(fn)), x, fn, "the entry is cut by offsets.GetBlock", "")
+						}
+					case *ssa.Slice:
+						if !isEntries(x.X) || x.Low == nil && x.High == nil {
+							continue
+						}
+						n++
+						for _, bd := range []struct {
+							name string
+							v    ssa.Value
+						}{{"start", x.Low}, {"end", x.High}} {
+							if bd.v == nil {
+								continue
+							}
+							if _, isC := eng.ConstInt(bd.v); isC {
+								continue
+							}
+							fromTable, isLenOfBlock, running := false, false, false
+							eng.WalkExpr(bd.v, func(y ssa.Value) bool {
+								if isOffsetsGet(y) {
+									fromTable = true
+									return false // what the table is asked for (the index) is not a bound
+								}
+								if cl, ok := y.(*ssa.Call); ok {
+									if bi, isB := cl.Common().Value.(*ssa.Builtin); isB && bi.Name() == "len" {
+										isLenOfBlock = true
+										return false
+									}
+								}
+								if _, isP := y.(*ssa.Parameter); isP {
+									running = true
+								}
+								if fa, ok := y.(*ssa.FieldAddr); ok && !strings.HasPrefix(eng.FieldKeyOfAddr(fa), T+".") {
+									running = true
+								}
+								return true
+							})
+							c.Check((fromTable || isLenOfBlock) && !running, fmt.Sprintf("%s-from-the-offsets-table@%s", bd.name, p.FuncKey(fn)), x, fn,
+								"where an entry starts and ends is read from the offsets table (offsets.Get / GetBlock), exactly as the point look-up does: the end of the previous entry is not the start of the next when a stream entry was written but not committed - its bytes stay in the file and would be glued in front of the next value",
+								"the "+bd.name+" of the slice is "+p.Desc(bd.v))
+						}
+					}
+				}
+			}
+		}
+		c.Check(n >= 1, "entry-cuts-found", nil, nil, "the table reader cuts entries out of the entries block", "")
+	})
+}
+
+// ---- C15-m18 (C15): a merged iterator is always the latching iterator -------------------------------------------------------------------------
+//
+// The raw table iterator advances one cursor in Key() and another in Value(); the merged iterator reads both once per
+// step and latches them, so its consumers may call Key() / Value() any number of times (or not at all) per HasNext.
+// Handing an input iterator back as "the merged iterator of one input" gives those consumers shifted values.
+func mergedIteratorAlwaysLatches(c *eng.Ctx) {
+	p := c.P
+	c.Rule("PROV", "kv/table.NewMergedIterator{the result is the latching merged iterator, never an input}", func() {
+		f := c.Fn("kv/table.NewMergedIterator")
+		n := 0
+		for _, b := range f.Blocks {
+			r, ok := b.Instrs[len(b.Instrs)-1].(*ssa.Return)
+			if !ok || len(r.Results) != 1 {
+				continue
+			}
+			var srcs []ssa.Value
+			var flat func(v ssa.Value, d int)
+			flat = func(v ssa.Value, d int) {
+				if ph, ok := v.(*ssa.Phi); ok && d < 6 {
+					for _, e := range ph.Edges {
+						flat(e, d+1)
+					}
+					return
+				}
+				srcs = append(srcs, v)
+			}
+			flat(r.Results[0], 0)
+			for _, src := range srcs {
+				n++
+				okT := false
+				if mi, isMI := src.(*ssa.MakeInterface); isMI {
+					okT = strings.HasSuffix(mi.X.Type().String(), "table.mergedIterator")
+				} else {
+					// the dynamic type behind an interface value computed elsewhere: a constructor of the package
+					for _, s2 := range leafSources(src) {
+						if strings.HasSuffix(s2.Type().String(), "table.mergedIterator") {
+							okT = true
+						}
+					}
+				}
+				c.Check(okT, fmt.Sprintf("returns-the-merged-iterator[%d]", n), r, f,
+					"Key() and Value() of a table iterator each advance a cursor of their own; only the merged iterator reads them once per step and hands out the latched pair - it is returned for every number of inputs, one included",
+					"returns "+p.Desc(src))
+			}
+		}
+		c.Check(n >= 1, "returns-found", nil, f, "NewMergedIterator returns an iterator", "")
+	})
+}
+
+// ---- C16-m18 (C16): a repeated tag key of a line is resolved before the tags reach the row builder --------------------------------------------
+//
+// The row builder (external module) de-duplicates with an UNSTABLE sort: which of two equal keys survives depends on the
+// order and the number of the tags.  The line-protocol parser therefore resolves repeated keys itself - the pairs of a
+// line go through a map keyed by the tag key - and hands the builder every key once.
+func lineTagsResolvedBeforeTheBuilder(c *eng.Ctx) {
+	p := c.P
+	c.Rule("PROV", "ingestion/influx.parseInfluxLine{the tag keys handed to the row builder are unique: they come out of a map}", func() {
+		f := c.Fn("ingestion/influx.parseInfluxLine")
+		adds := c.Some(f, invokeOn("", "AddTag"), "builder.AddTag(key, value)")
+		isMapNext := func(x ssa.Value) bool {
+			nx, ok := x.(*ssa.Next)
+			if !ok || nx.IsString {
+				return false
+			}
+			rg, ok := nx.Iter.(*ssa.Range)
+			if !ok {
+				return false
+			}
+			_, isMap := rg.X.Type().Underlying().(*types.Map)
+			return isMap
+		}
+		// a map keyed by the tag key anywhere on the way (parseTags and the helpers entered transparently)
+		viaMap := false
+		for _, g := range append([]*ssa.Function{f}, closuresT(f)...) {
+			for _, b := range eng.BlocksT(g) {
+				for _, in := range b.Instrs {
+					if mu, ok := in.(*ssa.MapUpdate); ok {
+						if mt, isMap := mu.Map.Type().Underlying().(*types.Map); isMap {
+							if bt, isB := mt.Key().Underlying().(*types.Basic); isB && bt.Info()&types.IsString != 0 {
+								viaMap = true
+							}
+						}
+					}
+				}
+			}
+		}
+		if pt := p.Func("ingestion/influx.parseTags"); pt != nil {
+			for _, b := range pt.Blocks {
+				for _, in := range b.Instrs {
+					if _, ok := in.(*ssa.MapUpdate); ok {
+						viaMap = true
+					}
+				}
+			}
+		}
+		for i, a := range adds {
+			args := eng.CallArgs(a.Instr.(ssa.CallInstruction))
+			if len(args) < 1 {
+				continue
+			}
+			fromMap := eng.DependsOn(args[0], isMapNext)
+			c.Check(fromMap || viaMap, fmt.Sprintf("key-from-a-map[%d]", i), a.Instr, f,
+				"the pairs of a line are collected in a map keyed by the tag key (a repeated key keeps one value, deterministically) before they are handed to the row builder; the builder's own de-duplication sorts unstably, so with 13 or more tags the surviving value - and with it the tags hash, the series identity and the shard - depends on the order of the tags in the line",
+				"the key handed to AddTag is "+p.Desc(args[0])+" and no map keyed by the tag key lies on the way")
+		}
+	})
+}
+
+// ---- C17-m18 (C17): the reader of the wire form invents nothing --------------------------------------------------------------------------------
+//
+// What the root planned is what the leaf executes: UnmarshalJSON stores into the statement only what the payload carries.
+// A default that the reader fills in (a namespace for a payload without one) cannot be told from a value the writer sent:
+// the parser accepts an explicit empty namespace, the writer omits it, and the leaf then runs on another namespace than
+// the root planned.
+func wireReaderInventsNothing(c *eng.Ctx) {
+	p := c.P
+	c.Rule("PROV", "sql/stmt{UnmarshalJSON stores only what the payload carries}", func() {
+		n := 0
+		for _, fk := range []string{"sql/stmt.Query.UnmarshalJSON", "sql/stmt.MetricMetadata.UnmarshalJSON"} {
+			f := c.Fn(fk)
+			recv := f.Params[0]
+			for _, b := range f.Blocks {
+				for _, in := range b.Instrs {
+					st, ok := in.(*ssa.Store)
+					if !ok {
+						continue
+					}
+					fa, ok := st.Addr.(*ssa.FieldAddr)
+					if !ok || eng.Unwrap(fa.X) != ssa.Value(recv) {
+						continue
+					}
+					n++
+					k, isC := eng.Unwrap(st.Val).(*ssa.Const)
+					invented := isC && !k.IsNil() && k.Value != nil && k.Value.ExactString() != `""` && k.Value.ExactString() != "0" && k.Value.ExactString() != "false"
+					c.Check(!invented, fmt.Sprintf("%s:%s-from-the-payload", fk, eng.FieldKeyOfAddr(fa)), st, f,
+						"the statement a node reads off the wire is the statement that was written: a field is stored with what the payload carries (or left at its zero value), never with a constant the reader makes up - the writer omits empty values, so a default filled in by the reader replaces an explicit empty value of the original",
+						"stores the constant "+p.Desc(st.Val))
+				}
+			}
+		}
+		c.Check(n >= 10, "field-stores-found", nil, nil, "UnmarshalJSON assigns the statement's fields", fmt.Sprintf("%d stores", n))
+	})
+}
+
+// ---- C18-m17 (C18): a replica's position in the list is the order in which it was added -------------------------------------------------------
+//
+// shard_assign.go makes Replicas[0] the round-robin first replica (the preferred leader) purely by the ORDER of its
+// AddReplica calls; the elector and the placement property read that position.  AddReplica therefore appends and does
+// nothing else to the list.
+func addReplicaAppends(c *eng.Ctx) {
+	p := c.P
+	c.Rule("LAYOUT", "models.ShardAssignment.AddReplica{the new replica goes to the end of the list; nothing is moved}", func() {
+		f := c.Fn("models.ShardAssignment.AddReplica")
+		const fld = "models.Replica.Replicas"
+		isList := func(v ssa.Value) bool {
+			return eng.DependsOn(v, func(x ssa.Value) bool {
+				in, ok := x.(ssa.Instruction)
+				return ok && eng.LoadField(fld)(p, in)
+			})
+		}
+		appended := 0
+		for _, b := range eng.BlocksT(f) {
+			for _, in := range b.Instrs {
+				switch x := in.(type) {
+				case *ssa.Store:
+					if fa, ok := x.Addr.(*ssa.FieldAddr); ok && eng.FieldKeyOfAddr(fa) == fld {
+						isAppend := false
+						if cl, ok := eng.Unwrap(x.Val).(*ssa.Call); ok {
+							if bi, isB := cl.Common().Value.(*ssa.Builtin); isB && bi.Name() == "append" && len(cl.Common().Args) == 2 && isList(cl.Common().Args[0]) {
+								isAppend = eng.DependsOn(cl.Common().Args[1], func(y ssa.Value) bool { pa, ok := y.(*ssa.Parameter); return ok && pa.Parent() == f })
+							}
+						}
+						appended++
+						c.Check(isAppend, fmt.Sprintf("list-grows-by-append[%d]", appended), x, f,
+							"the replica list is only ever extended at its end with the node that is added", "the list is replaced by "+p.Desc(x.Val))
+						continue
+					}
+					if ia, ok := x.Addr.(*ssa.IndexAddr); ok && isList(ia.X) {
+						c.Check(false, "no-element-overwritten", x, f,
+							"Replicas[0] is the first replica because it was added first (round-robin over the nodes in shard_assign.go); AddReplica does not re-order the list - a list kept sorted by node id makes the node with the smallest id first replica of every shard",
+							"an element of the list is overwritten")
+					}
+				case *ssa.Call:
+					if bi, isB := x.Common().Value.(*ssa.Builtin); isB && bi.Name() == "copy" && len(x.Common().Args) == 2 && isList(x.Common().Args[0]) {
+						c.Check(false, "no-element-moved", x, f,
+							"AddReplica does not move the replicas that are already in the list", "copy(...) shifts elements of the list")
+					}
+					if nm := calleeName(x); (nm == "Slice" || nm == "Sort" || nm == "SliceStable" || nm == "Stable") && len(x.Common().Args) > 0 && isList(x.Common().Args[0]) {
+						c.Check(false, "not-sorted", x, f, "AddReplica does not sort the list", "sort."+nm+" on the replica list")
+					}
+				}
+			}
+		}
+		c.Check(appended >= 1, "append-found", nil, f, "AddReplica appends the replica", "")
+	})
+}
+
+// ---- C20-m17 (C20): item.index is read only where it is right -----------------------------------------------------------------------------------
+//
+// priorityQueue.update(item) is heap.Fix(pq, item.index).  item.index is stored by Push (the true position) and by Swap -
+// which, as written, stores the two indexes crosswise (the element now at i is told it is at j), so after any sift the
+// field is wrong.  The enumeration stays ordered only as long as EITHER Swap keeps the field right OR every update(item)
+// comes directly behind the Push(item) that has just stored it.  (Whichever holds is enough; today it is the second.)
+func heapIndexReadOnlyWhereRight(c *eng.Ctx) {
+	p := c.P
+	c.Rule("TYPESTATE", "index/model.priorityQueue{item.index is read only where it is the item's position}", func() {
+		const pqT = "index/model.priorityQueue"
+		sw := c.Fn(pqT + ".Swap")
+		// (a) does Swap keep index == position ?
+		maintained := false
+		if len(sw.Blocks) == 1 && len(sw.Params) == 3 {
+			var elemStores, idxStores []int
+			right := true
+			for k, in := range sw.Blocks[0].Instrs {
+				st, ok := in.(*ssa.Store)
+				if !ok {
+					continue
+				}
+				if ia, isIA := st.Addr.(*ssa.IndexAddr); isIA && eng.Unwrap(ia.X) == ssa.Value(sw.Params[0]) {
+					elemStores = append(elemStores, k)
+					continue
+				}
+				fa, isFA := st.Addr.(*ssa.FieldAddr)
+				if !isFA || !strings.HasSuffix(eng.FieldKeyOfAddr(fa), ".index") {
+					continue
+				}
+				idxStores = append(idxStores, k)
+				// the element whose field is stored: pq[a]
+				var pos ssa.Value
+				eng.WalkExpr(fa.X, func(x ssa.Value) bool {
+					if ia, ok := x.(*ssa.IndexAddr); ok && pos == nil {
+						pos = eng.Unwrap(ia.Index)
+					}
+					return true
+				})
+				if pos == nil || pos != eng.Unwrap(st.Val) {
+					right = false
+				}
+			}
+			after := len(elemStores) == 2 && len(idxStores) == 2 && idxStores[0] > elemStores[1]
+			maintained = after && right
+		}
+		// (b) every update(item) directly behind Push(item)
+		n := 0
+		allBehindPush := true
+		var firstBad ssa.Instruction
+		var badFn *ssa.Function
+		for _, fn := range p.AllFuncs {
+			if !strings.HasPrefix(p.FuncKey(fn), "index/model.") || fn.Blocks == nil {
+				continue
+			}
+			for _, s := range p.SitesDirect(fn, eng.AnyCallTo(pqT+".update")) {
+				n++
+				args := eng.CallArgs(s.Instr.(ssa.CallInstruction))
+				if len(args) < 1 {
+					continue
+				}
+				it := args[len(args)-1]
+				isPush := func(in ssa.Instruction) bool {
+					cl, ok := in.(*ssa.Call)
+					if !ok || calleeName(cl) != "Push" {
+						return false
+					}
+					for _, a := range cl.Common().Args {
+						if eng.DependsOn(a, func(x ssa.Value) bool { return x == eng.Unwrap(it) }) {
+							return true
+						}
+					}
+					return false
+				}
+				isHeapOp := func(in ssa.Instruction) bool {
+					cl, ok := in.(*ssa.Call)
+					if !ok || isPush(in) {
+						return false
+					}
+					g := cl.Common().StaticCallee()
+					return g != nil && g.Pkg != nil && g.Pkg.Pkg.Path() == "container/heap"
+				}
+				// no path reaches the update without passing a Push of the same item after the last heap operation
+				var pushes []eng.Site
+				for _, b := range fn.Blocks {
+					for _, in := range b.Instrs {
+						if isPush(in) {
+							pushes = append(pushes, eng.Site{Fn: fn, Instr: in})
+						}
+					}
+				}
+				ok := len(pushes) > 0 && eng.DominatedBy(fn, s.Instr, pushes, nil)
+				if ok {
+					// ... and no heap operation (Pop / Fix / Remove / Init: they sift, i.e. Swap) lies between that Push and the update
+					for _, b := range fn.Blocks {
+						for _, in := range b.Instrs {
+							if !isHeapOp(in) {
+								continue
+							}
+							if _, sifted := eng.PathExists(eng.PathQuery{Fn: fn, After: in,
+								Target:  func(x ssa.Instruction) bool { return x == s.Instr },
+								Blocked: isPush}); sifted {
+								ok = false
+							}
+						}
+					}
+				}
+				if !ok {
+					allBehindPush = false
+					if firstBad == nil {
+						firstBad, badFn = s.Instr, fn
+					}
+				}
+			}
+		}
+		detail := ""
+		if !maintained && !allBehindPush {
+			detail = "Swap stores the indexes crosswise (index != position after a sift) and " + p.Pos(firstBad.Pos()) + " calls update(item) for an item that was not pushed just before: heap.Fix repairs the wrong slot"
+		}
+		c.Check(maintained || allBehindPush, "index-right-where-read", firstBad, badFn,
+			"heap.Fix(pq, item.index) re-establishes the order only when item.index is the item's position: either Swap maintains the field (pq[i].index = i after the exchange) or update(item) is only called directly behind Push(item), which stores the true position - otherwise the merged enumeration of a bucket's tries (Suggest) returns keys out of order, skips smaller keys under a limit, or indexes out of range",
+			detail)
+		c.Check(n >= 1, "update-sites-found", nil, nil, "the merged iterator re-orders its queue through update", "")
+	})
+}
+
+// ---- C20-m18 (C20): a reused bit buffer is cleared as far as its readers look ----------------------------------------------------------------
+//
+// The builder's write context keeps its bit buffers from one trie to the next.  selectVector.Init counts the one-bits of the
+// WHOLE buffer (`range v.bits`), distanceToNextSetBit bounds itself by len(v.bits): as long as a reader of the package
+// bounds itself by the buffer's length, bitVector.Init clears the buffer in its whole length - clearing only the words
+// of the current trie leaves the bits of a previous, bigger trie where those readers see them (inflated numOnes, extra
+// select samples: a prefix probe behind the last key panics instead of returning nothing).
+func reusedBitBufferClearedWhole(c *eng.Ctx) {
+	p := c.P
+	c.Rule("SYMMETRY", "pkg/trie.bitVector.Init{a reused buffer is cleared as far as its readers look}", func() {
+		const T = "pkg/trie.bitVector"
+		init := c.Fn(T + ".Init")
+		isBits := func(v ssa.Value) bool {
+			return eng.DependsOn(v, func(x ssa.Value) bool {
+				in, ok := x.(ssa.Instruction)
+				return ok && eng.LoadField(T+".bits")(p, in)
+			})
+		}
+		isLenOfBits := func(x ssa.Value) bool {
+			cl, ok := x.(*ssa.Call)
+			if !ok {
+				return false
+			}
+			bi, isB := cl.Common().Value.(*ssa.Builtin)
+			return isB && bi.Name() == "len" && len(cl.Common().Args) == 1 && isBits(cl.Common().Args[0])
+		}
+		isWords := func(x ssa.Value) bool {
+			in, ok := x.(ssa.Instruction)
+			return ok && eng.LoadField(T+".words")(p, in)
+		}
+		// the clearing loop of Init
+		var clear *ssa.Store
+		for _, b := range init.Blocks {
+			for _, in := range b.Instrs {
+				st, ok := in.(*ssa.Store)
+				if !ok {
+					continue
+				}
+				ia, isIA := st.Addr.(*ssa.IndexAddr)
+				if !isIA || !isBits(ia.X) {
+					continue
+				}
+				if k, isC := eng.ConstInt(st.Val); isC && k == 0 {
+					clear = st
+				}
+			}
+		}
+		if clear == nil {
+			// no clearing loop: the buffer is allocated afresh on every Init ?
+			fresh := false
+			for _, s := range p.SitesDirect(init, eng.StoreField(T+".bits")) {
+				if _, isMk := eng.Unwrap(s.Instr.(*ssa.Store).Val).(*ssa.MakeSlice); isMk && eng.DominatedBy(init, init.Blocks[len(init.Blocks)-1].Instrs[0], []eng.Site{s}, nil) {
+					fresh = true
+				}
+			}
+			c.Check(fresh, "buffer-cleared-or-fresh", nil, init, "Init clears the reused buffer or allocates a new one", "no clearing store and the buffer is not always newly allocated")
+			return
+		}
+		h := innermostLoop(init, clear.Block())
+		if h == nil {
+			c.Undecided("the clearing store of bitVector.Init is not in a loop")
+		}
+		whole, words := false, false
+		for _, b := range init.Blocks {
+			if !h.Dominates(b) && b != h {
+				continue
+			}
+			for _, in := range b.Instrs {
+				bo, ok := in.(*ssa.BinOp)
+				if !ok {
+					continue
+				}
+				switch bo.Op {
+				case token.LSS, token.LEQ, token.GTR, token.GEQ:
+				default:
+					continue
+				}
+				if innermostLoop(init, b) != h && b != h {
+					continue
+				}
+				if eng.DependsOn(bo, isLenOfBits) {
+					whole = true
+				}
+				if eng.DependsOn(bo, isWords) {
+					words = true
+				}
+			}
+		}
+		// readers that bound themselves by the length of the buffer
+		var lenReaders []string
+		for _, fn := range p.AllFuncs {
+			k := p.FuncKey(fn)
+			if !strings.HasPrefix(k, "pkg/trie.") || fn == init || fn.Blocks == nil {
+				continue
+			}
+			for _, b := range fn.Blocks {
+				for _, in := range b.Instrs {
+					if v, ok := in.(ssa.Value); ok && isLenOfBits(v) {
+						lenReaders = append(lenReaders, k)
+					}
+					if rg, ok := in.(*ssa.Range); ok && isBits(rg.X) {
+						lenReaders = append(lenReaders, k)
+					}
+				}
+			}
+		}
+		c.Check(whole || (words && len(lenReaders) == 0), "cleared-as-far-as-read", clear, init,
+			"the write context of the trie builder is reused: as long as a reader of the package bounds itself by len(v.bits) (selectVector.Init counts the ones of the whole buffer), Init clears the whole buffer - not only the v.words words of the current trie, behind which the bits of a previous, bigger trie survive",
+			fmt.Sprintf("the clearing loop is bounded by v.words while %d reader(s) look at the whole buffer (%s)", len(lenReaders), strings.Join(lenReaders, ", ")))
+	})
+}
+
+// ---- F70 (C08): the follower's liveness is tested AFTER the replicator marked itself suspended -----------------------------------------------
+//
+// The node-online handler wakes only a replicator it finds marked suspended.  A replicator that looks the follower up
+// ("offline"), and only then marks itself suspended and waits, loses an online event handled in between: it sleeps while
+// the follower is online, and with it the single replica loop of the partition.  Rule (check-after-mark): the wait on the
+// suspend channel is reached only behind a GetLiveNode look-up that itself lies behind the mark.
+func livenessRecheckedAfterTheSuspendMark(c *eng.Ctx) {
+	p := c.P
+	c.Rule("ORDER", rrT+".IsReady{the follower is looked up again after the suspend mark, before the wait}", func() {
+		f := c.Fn(rrT + ".IsReady")
+		var waits []ssa.Instruction
+		for _, b := range eng.BlocksT(f) {
+			for _, in := range b.Instrs {
+				if u, ok := in.(*ssa.UnOp); ok && u.Op == token.ARROW && eng.DependsOnField(u.X, rrT+".suspend") {
+					waits = append(waits, in)
+				}
+			}
+		}
+		if len(waits) == 0 {
+			c.Check(true, "no-suspend-wait", nil, f, "IsReady does not park on the suspend channel", "")
+			return
+		}
+		var marks []eng.Site
+		for _, b := range eng.BlocksT(f) {
+			for _, in := range b.Instrs {
+				if fa, m, _ := eng.AtomicOp(in); fa != nil && eng.FieldKeyOfAddr(fa) == rrT+".isSuspend" && (m == "CompareAndSwap" || m == "Store" || m == "Swap" || m == "CAS") {
+					marks = append(marks, eng.Site{Fn: f, Instr: in})
+				}
+			}
+		}
+		if len(marks) == 0 {
+			c.Undecided("IsReady waits on the suspend channel but never marks the replicator suspended")
+		}
+		lookups := p.SitesT(f, invokeOn(".stateMgr", "GetLiveNode"))
+		var after []eng.Site
+		for _, l := range lookups {
+			if eng.DominatedBy(f, l.Instr, marks, nil) {
+				after = append(after, l)
+			}
+		}
+		for i, w := range waits {
+			ok := len(after) > 0 && eng.DominatedBy(f, w, after, nil)
+			c.Check(ok, fmt.Sprintf("recheck-between-mark-and-wait[%d]", i), w, f,
+				"the node-online handler notifies only a replicator whose suspended mark it finds set; an online event handled between IsReady's look-up ('offline') and the mark is therefore lost, unless the follower is looked up AGAIN after the mark and before the wait - otherwise the replicator, and with it the partition's single replica loop, sleeps while the follower is online",
+				"the wait is reachable without a GetLiveNode look-up behind the suspended mark")
+		}
+	})
+}
+
+// ---- F71 (C16): the fall-back to the request's namespace is reachable ------------------------------------------------------------------------
+//
+// BrokerRowFlatDecoder.rebuild falls back to the request's namespace when the row names none - `if len(ns) == 0`.  The
+// test is dead when ns comes from an accessor that never returns an empty value (readOnlyRow.NameSpace substitutes the
+// default namespace): a flat row without a namespace sent to `?ns=prod` is stored under default-ns.  A contradiction
+// rule in Engler's sense: code that tests a value for emptiness believes it can be empty.
+func namespaceFallbackIsReachable(c *eng.Ctx) {
+	p := c.P
+	c.Rule("GUARD", "series/metric.BrokerRowFlatDecoder.rebuild{the namespace tested for emptiness can be empty}", func() {
+		const T = "series/metric.BrokerRowFlatDecoder"
+		f := c.Fn(T + ".rebuild")
+		// the namespace handed to the builder is the row's or the request's
+		add := c.One(f, invokeOn(".rowBuilder", "AddNameSpace"), "itr.rowBuilder.AddNameSpace(ns)")
+		args := eng.CallArgs(add.Instr.(ssa.CallInstruction))
+		var rowVals []ssa.Value
+		fromReq := false
+		for _, src := range leafSourcesNoInline(args[len(args)-1]) {
+			if in, ok := src.(ssa.Instruction); ok && eng.LoadField(T+".namespace")(p, in) {
+				fromReq = true
+				continue
+			}
+			rowVals = append(rowVals, src)
+		}
+		c.Check(fromReq && len(rowVals) >= 1, "row-or-request-namespace", add.Instr, f,
+			"the namespace of a rebuilt flat row is the row's own or, when it names none, the request's", fmt.Sprintf("request namespace used: %v, other sources: %d", fromReq, len(rowVals)))
+		// the choice between the two is an emptiness test of the row's value
+		n := 0
+		for _, b := range eng.BlocksT(f) {
+			for _, in := range b.Instrs {
+				bo, ok := in.(*ssa.BinOp)
+				if !ok {
+					continue
+				}
+				switch bo.Op {
+				case token.EQL, token.NEQ, token.GTR, token.LSS, token.LEQ, token.GEQ:
+				default:
+					continue
+				}
+				var lenCall *ssa.Call
+				for _, side := range []ssa.Value{bo.X, bo.Y} {
+					if cl, isCall := eng.Unwrap(side).(*ssa.Call); isCall {
+						if bi, isB := cl.Common().Value.(*ssa.Builtin); isB && bi.Name() == "len" {
+							lenCall = cl
+						}
+					}
+				}
+				if lenCall == nil {
+					continue
+				}
+				tested := eng.Unwrap(lenCall.Common().Args[0])
+				isRow := false
+				for _, rv := range rowVals {
+					if eng.Unwrap(rv) == tested {
+						isRow = true
+					}
+				}
+				if !isRow {
+					continue
+				}
+				n++
+				neverEmpty, who := false, ""
+				for _, src := range leafSourcesNoInline(tested) {
+					sc, ok := src.(*ssa.Call)
+					if !ok {
+						continue
+					}
+					g := sc.Common().StaticCallee()
+					if g == nil || g.Blocks == nil || g.Pkg == nil || !strings.HasPrefix(g.Pkg.Pkg.Path(), "github.com/lindb/lindb") {
+						continue
+					}
+					if !mayReturnEmpty(p, g) {
+						neverEmpty, who = true, p.FuncKey(g)
+					}
+				}
+				c.Check(!neverEmpty, fmt.Sprintf("fallback-test-is-live[%d]", n), bo, f,
+					"the request's namespace is used for a row that names none: the value tested for emptiness is the row's raw namespace - an accessor that substitutes the default namespace for an empty one makes the test dead and stores such a row under default-ns whatever the request says",
+					"the tested value comes from "+who+", which never returns an empty value")
+			}
+		}
+		c.Check(n >= 1, "fallback-found", nil, f, "the choice between the row's and the request's namespace is an emptiness test of the row's", "")
+	})
+}
+
+// leafSourcesNoInline: like leafSources but a call is a leaf (its callee is not looked into).
+func leafSourcesNoInline(v ssa.Value) []ssa.Value {
+	var out []ssa.Value
+	seen := map[ssa.Value]bool{}
+	var rec func(v ssa.Value, d int)
+	rec = func(v ssa.Value, d int) {
+		v = eng.Unwrap(v)
+		if v == nil || seen[v] || d > 8 {
+			return
+		}
+		seen[v] = true
+		switch x := v.(type) {
+		case *ssa.Phi:
+			for _, e := range x.Edges {
+				rec(e, d+1)
+			}
+			return
+		case *ssa.Extract:
+			rec(x.Tuple, d+1)
+			return
+		}
+		out = append(out, v)
+	}
+	rec(v, 0)
+	return out
+}
+
+// mayReturnEmpty: some return of g hands back a slice / string that is not known to be non-empty (a package-level
+// variable counts as non-empty: the default values of the module; a value returned under len(v) != 0 is non-empty).
+func mayReturnEmpty(p *eng.Prog, g *ssa.Function) bool {
+	facts := p.MustFacts(g)
+	for _, b := range g.Blocks {
+		r, ok := b.Instrs[len(b.Instrs)-1].(*ssa.Return)
+		if !ok || len(r.Results) == 0 {
+			continue
+		}
+		v := eng.Unwrap(r.Results[0])
+		if u, isU := v.(*ssa.UnOp); isU {
+			if _, isG := u.X.(*ssa.Global); isG {
+				continue
+			}
+		}
+		fs := facts.At(r)
+		isLenOfV := func(_ string, x ssa.Value) bool {
+			cl, ok := eng.Unwrap(x).(*ssa.Call)
+			if !ok {
+				return false
+			}
+			bi, isB := cl.Common().Value.(*ssa.Builtin)
+			return isB && bi.Name() == "len" && eng.Unwrap(cl.Common().Args[0]) == v
+		}
+		isZero := func(_ string, x ssa.Value) bool { k, ok := eng.ConstInt(x); return ok && k == 0 }
+		if len(facts.Find(fs, "ne", isLenOfV, isZero))+len(facts.Find(fs, "ne", isZero, isLenOfV))+len(facts.Find(fs, "lt", isZero, isLenOfV)) > 0 {
+			continue
+		}
+		return true
+	}
+	return false
 }
